@@ -410,6 +410,11 @@ class Machine:
         return v
 
     def truth(self, v, node) -> bool:
+        if isinstance(v, Opaque) and v.text[:2] in ("f'", 'f"'):
+            # an f-string with a literal part outside its replacement fields is a non-empty string whatever the fields evaluate to
+            import re as _re
+            if _re.sub(r"\{[^{}]*\}", "", v.text[2:-1]).strip():
+                return True
         if isinstance(v, (Opaque, Mono, Mult)):
             uv = getattr(self, "undecided_value", None)
             if uv is not None:
